@@ -372,6 +372,24 @@ def big_bound_programs():
             yield {'prog': OPN('ex', x, n=b), 'form': 'c', 'w': 'W5big'}
 
 
+RAW_VALID = ['()', '()(a)', 'a()b', '(|a)', '(a|)', '(())', '(?:)', '(?i:)', '(?=)', '(?!)', '(?<=)', 'a(?:)b', '[()]', '\\(\\)', '(\\()', '(?P<n>)',
+             '((a)|(b))', '(a)|(b)', '(?:a|b)c', 'x*', '.{2,3}?', '\\b\\B', '(?#comment)a', 'a{0}', '$^', '(a)()', '()*', '(?:()|a)+', '[)]', '[(]', '(\\))',
+             '(?P<n>a)(?P=n)', '(a)\\1', '(?(1)a|b)', '(a)?(?(1)b)', '\\A\\Z', '(?s:.)', 'a|', '|', '||a', '(?:|)', '(a||b)']
+
+
+def raw_valid_programs():
+    """valid regular expressions handed over with escape=False (empty groups, empty alternatives, nested and flagged groups,
+    references): whatever they mean to the type inference, no builder call may die on them"""
+    for s in RAW_VALID:
+        x = RAW(s)
+        yield {'prog': x, 'form': 'c', 'w': 'Wraw'}
+        for name, fn, forms in unary_templates():
+            yield {'prog': fn(x), 'form': forms[0], 'w': 'Wraw'}
+        for name, fn, forms in binary_templates():
+            yield {'prog': fn(x, L('y')), 'form': forms[0], 'w': 'Wraw'}
+            yield {'prog': fn(L('y'), x), 'form': forms[-1], 'w': 'Wraw'}
+
+
 def unary_templates():
     """functions X -> program node; each tagged with the forms it exists in"""
     T = []
